@@ -11,6 +11,7 @@ Scenario.generate once per RNG branch; the set of observed value vectors must eq
 of vectors the spec prints, and supportInterval of every node must contain the spec's
 [min, max] or be unknown."""
 
+import concurrent.futures
 import gc
 import json
 import os
@@ -28,6 +29,7 @@ CFG = """SPECIFICATION Spec
 INVARIANT TypeOK
 INVARIANT RewriteSound
 INVARIANT DoneInDenotation
+INVARIANT Reproducible
 INVARIANT FixpointStable
 INVARIANT FinalValueSeen
 INVARIANT DeviationLocal
@@ -149,11 +151,16 @@ def build_cases(tier):
     s = seed()
     core = G.core_cases()
     if tier == "quick":
-        nrand, nobj = 500, 150
+        nrand, nobj = 400, 110
     else:
         nrand, nobj = 5000, 1000
     rand = G.random_cases(s * 7919 + 5, nrand, depths=(2, 3, 3, 4) if tier == "quick" else (2, 3, 3, 4, 4, 5))
     objs = G.object_cases(s * 104729 + 11, nobj)
+    if tier == "quick":
+        # group A (operator x constant x side x leaf): every case with the constants 0 and 1 (the
+        # rewrite forms and their look-alikes), every second one (rotating with the seed) for 2, -1, 1/2
+        core = [c for j, c in enumerate(core)
+                if not c.tag.startswith("A:") or c.tag.split(":")[3] in ("0", "1") or (j + s) % 2 == 0]
     seen, out = set(), []
     for c in core + rand + objs:
         k = c.key()
@@ -228,23 +235,36 @@ def main(tier):
 
     run_idx = [i for i, (w, _r) in enumerate(pyres) if w == "ok"]
     run_items = [item_of(cases[i]) for i in run_idx]
-    gc.collect()
-    gc.freeze()
-    real = dict(zip(run_idx, pmap(real_run, run_items)))
-    gc.unfreeze()
+
+    # ---- TLC: every case x every assignment (in a thread, while the real code runs)
+    BATCH = 2500
+    machine = "1" if tier == "thorough" else "0"   # thorough: leaf-by-leaf machine + denotation
+
+    def run_all_tlc():
+        outs = []
+        for base in range(0, len(cases), BATCH):
+            b = cases[base : base + BATCH]
+            path = os.path.join(scratch(), f"cases{base}.json")
+            with open(path, "w") as f:
+                json.dump([c.json() for c in b], f)
+            # no -coverage: TLC switches off the caching of lazily evaluated LET values under
+            # coverage, which makes the recursive evaluator exponential; non-vacuity is read from
+            # the output
+            outs.append((base, run_tlc("Expr", CFG, env={"CASES": path, "MACHINE": machine}, coverage=False, timeout=3000)))
+        return outs
+
+    scratch()  # create the scratch directory in the main thread
+    with concurrent.futures.ThreadPoolExecutor(1) as ex:
+        fut = ex.submit(run_all_tlc)
+        gc.collect()
+        gc.freeze()
+        real = dict(zip(run_idx, pmap(real_run, run_items)))
+        gc.unfreeze()
+        tlc_out = fut.result()
     item = dict(zip(run_idx, run_items))
 
-    # ---- TLC: every case x every assignment
-    BATCH = 900
     spec_case, spec_rows, rules = {}, {}, []
-    for base in range(0, len(cases), BATCH):
-        b = cases[base : base + BATCH]
-        path = os.path.join(scratch(), f"cases{base}.json")
-        with open(path, "w") as f:
-            json.dump([c.json() for c in b], f)
-        # no -coverage: TLC switches off the caching of lazily evaluated LET values under coverage,
-        # which makes the recursive evaluator exponential; non-vacuity is read from the output
-        res = run_tlc("Expr", CFG, env={"CASES": path}, coverage=False, timeout=3000)
+    for base, res in tlc_out:
         ck.add_tlc("Expr", res)
         for o in res.outputs:
             if o["t"] == "case":
